@@ -636,7 +636,7 @@ func c19Eval(in []int64) []int64 {
 		return c19SendStop(in[1])
 	case 6:
 		return c19SendDisconnect(in[1])
-	case 7, 8, 9, 10, 11, 12, 13, 14, 16, 19, 20, 21, 22, 23, 24, 25, 26, 27, 28, 29:
+	case 7, 8, 9, 10, 11, 12, 13, 14, 16, 19, 20, 21, 22, 23, 24, 25, 26, 27, 28, 29, 30, 31, 32:
 		return gatedEval(in)
 	case 15:
 		return c19StopBusyReconnect()
